@@ -2,12 +2,18 @@ import AiocoapModel.Blockwise.BlockOptC
 /-!
 Model of the block-wise client `aiocoap.protocol.BlockwiseRequest` (protocol.py):
 
-* the Block1 loop of `_run` (protocol.py:896-1039 of the fixed tree): fragmentation threshold, `_extract_block`,
+* the Block1 loop of `_run` (protocol.py:896-1048 of the fixed tree): fragmentation threshold, `_extract_block`,
   the cursor update after an acknowledgement incl. the server's size reduction, the checks
-  (incl. "2.31 Continue without Block1 option", protocol.py:959-968);
-* `_complete_by_requesting_block2` (protocol.py:1130-1205) with
+  (incl. "2.31 Continue without Block1 option" and "Successful response without Block1 option
+  before the end of the body", protocol.py:959-982);
+* `_complete_by_requesting_block2` (protocol.py:1140-1220) with
   `Message._generate_next_block2_request` and `Message._append_response_block`
-  (message.py:476-531), incl. the refusal of a block larger than requested (protocol.py:1189-1193).
+  (message.py:476-531), incl. the refusal of a block larger than requested -- of the first
+  response when the request itself asked for a block size (protocol.py:1157-1166) and of every
+  later one (protocol.py:1207-1211);
+* the application's optional size hint `block2=(0, False, szx)` in the request handed to the API
+  (`Cfg.hint2`; what tests/test_blockwise.py::test_client_hints does): every request of the
+  Block1 phase is a copy of the application's request and carries it.
 
 The client is a machine `Phase` that has exactly one request outstanding until it is `done`;
 `step` consumes the response to that request.  `runClient` folds `step` over a list of
@@ -18,7 +24,9 @@ server (what the theorems about conforming servers talk about).
 Out of the model: BERT (szx 7), the Observe option (protocol.py:1016-1031 cancels the lower
 observation when an intermediate acknowledgement carries Observe and goes on: no influence on the
 requests or the result, which is what the harness checks on requests with Observe:0), the
-deprecated way of passing a size hint in `app_request.opt.block1`, task / weak reference lifetime,
+deprecated way of passing a size hint in `app_request.opt.block1` (protocol.py:903-917; the driver
+answers `out-of-model`), an application request that asks for a particular block itself (Block2
+option with a block number other than 0), task / weak reference lifetime,
 and loss or duplication of individual exchanges (the message layer's job; here every request gets
 at most one response).
 -/
@@ -65,12 +73,19 @@ inductive Outcome
 deriving Repr, DecidableEq
 
 /-- `app_request.payload`, `app_request.remote.maximum_block_size_exp`,
-`app_request.remote.maximum_payload_size` -/
+`app_request.remote.maximum_payload_size`, and the size exponent of an application-preset
+`app_request.opt.block2 = (0, False, hint2)` (`none`: the request carries no Block2 option) -/
 structure Cfg where
   payload : Bytes
   szx0 : Nat
   maxPayload : Nat
+  hint2 : Option Nat := none
 deriving Repr, DecidableEq
+
+/-- `app_request.opt.block2`: every request of the Block1 phase is `app_request` itself or a copy
+made by `_extract_block` (message.py:441 `self.copy(payload=…, block1=…)`), so it carries it -/
+def hintOpt (cfg : Cfg) : Option BlockOpt :=
+  cfg.hint2.map fun h => { num := 0, more := false, szx := h }
 
 /-- the local variables `size_exp`, `block_cursor` of `_run` -/
 structure B1State where
@@ -110,11 +125,11 @@ def nextRequest (cfg : Cfg) (st : B1State) : Option Req :=
     match extractBlock cfg.payload st.cursor st.szx with
     | none => none
     | some (b, bytes) =>
-      some { block1 := some b, block2 := none,
+      some { block1 := some b, block2 := hintOpt cfg,
              size1 := if st.cursor = 0 then some cfg.payload.length else none,
              payload := bytes }
   else
-    some { block1 := none, block2 := none, size1 := none, payload := cfg.payload }
+    some { block1 := none, block2 := hintOpt cfg, size1 := none, payload := cfg.payload }
 
 def enterB1 (cfg : Cfg) (st : B1State) : Phase :=
   match nextRequest cfg st with
@@ -142,19 +157,32 @@ def enterB2 (cfg : Cfg) (template : Req) (asm : Asm) : Phase :=
   | none => .done (.error .assertion)
   | some cur => .b2 template asm cur
 
+/-- the block is larger than the one the request it answers asked for: protocol.py:1207
+`block2.size_exponent > current_block2.opt.block2.size_exponent` (every request of the Block2 loop
+carries a Block2 option) and protocol.py:1157-1161 `requested_block2 is not None and
+initial_response.opt.block2.size_exponent > requested_block2.size_exponent` (the request that
+ended the Block1 phase carries one iff the application preset it) -/
+def szxGrows (cur : Req) (b2 : BlockOpt) : Bool :=
+  match cur.block2 with
+  | some q => decide (q.szx < b2.szx)
+  | none => false
+
 def bodyOf (r : Resp) : Body := { code := r.code, etag := r.etag, payload := r.payload }
 
-/-- Entry of `_complete_by_requesting_block2` (protocol.py:1099-1136): a response without a
+/-- Entry of `_complete_by_requesting_block2` (protocol.py:1140-1181): a response without a
 Block2 option is the result; otherwise the first block must start at offset 0 (after the fix:
-whatever its more flag); without the more flag it is the result; with it, it must be number 0
-and (after the fix) of valid size. -/
+whatever its more flag) and (after the fix) must not be larger than the block size the request
+`template` asked for, if it asked for one; without the more flag it is the result; with it, it
+must be number 0 and (after the fix) of valid size. -/
 def completeBlock2 (cfg : Cfg) (template : Req) (initial : Resp) : Phase :=
   match initial.block2 with
   | none => .done (.ok (bodyOf initial))
   | some b2 =>
-    -- the application request carries no Block2 option (out of the model), so the expected
-    -- start of the first block is 0 -- also for a block that claims to be the last
+    -- the application request carries no Block2 option or the size hint `(0, False, szx)`, so
+    -- the expected start of the first block is 0 -- also for a block that claims to be the last
     if b2.start ≠ 0 then .done (.error .unexpectedBlock2)
+    -- protocol.py:1157-1166 (the fix): "Block size larger than requested"
+    else if szxGrows template b2 then .done (.error .unexpectedBlock2)
     else if !b2.more then .done (.ok (bodyOf initial))
     else if b2.num ≠ 0 then .done (.error .unexpectedBlock2)
     else if !b2.validFor initial.payload.length then .done (.error .unexpectedBlock2)
@@ -166,24 +194,20 @@ single final block 0 (protocol.py:963-970, after the fix) -/
 def sentBlock1 (st : B1State) (cur : Req) : BlockOpt :=
   cur.block1.getD { num := 0, more := false, szx := st.szx }
 
-/-- protocol.py:1189 `block2.size_exponent > current_block2.opt.block2.size_exponent`: the block
-is larger than the one the outstanding request asked for (every request of the Block2 loop
-carries a Block2 option) -/
-def szxGrows (cur : Req) (b2 : BlockOpt) : Bool :=
-  match cur.block2 with
-  | some q => decide (q.szx < b2.szx)
-  | none => false
-
 /-- One response arrives for the outstanding request. -/
 def step (cfg : Cfg) : Phase → Resp → Phase
   | .done o, _ => .done o
   | .b1 st cur, r =>
     match r.block1 with
     | none =>
-      -- protocol.py:959-968: a 2.31 without the option is a protocol error (the fix); every
-      -- other code ends the upload here (`break`), whether or not `cur` was the final block:
-      -- "Block1 option completely ignored by server, assuming it knows what it is doing"
+      -- protocol.py:959-982: a 2.31 without the option is a protocol error (a fix), and so is
+      -- every successful code when the block that was sent had the more flag (the fix:
+      -- "Successful response without Block1 option before the end of the body"). Every other
+      -- response ends the upload here (`break`): an unsuccessful one to whatever block (the
+      -- request failed), a successful one to the final or only block ("Block1 option completely
+      -- ignored by server, assuming it knows what it is doing": the whole body was sent)
       if r.code == codeContinue then .done (.error .unexpectedBlock1)
+      else if isSuccessful r.code && (sentBlock1 st cur).more then .done (.error .unexpectedBlock1)
       else completeBlock2 cfg cur r
     | some a =>
       let sent := sentBlock1 st cur
@@ -201,7 +225,7 @@ def step (cfg : Cfg) : Phase → Resp → Phase
     match r.block2 with
     | none => .done (.ok (bodyOf r))                       -- "accepting single response"
     | some b2 =>
-      -- protocol.py:1189-1193 (the fix): RFC 7959 2.4, never larger blocks than requested
+      -- protocol.py:1207-1211 (a fix): RFC 7959 2.4, never larger blocks than requested
       if szxGrows cur b2 then .done (.error .unexpectedBlock2)
       -- Message._append_response_block (message.py:476-500; the code comparison is a fix)
       else if r.code ≠ asm.code then .done (.error .unexpectedBlock2)   -- "Response code changed"
